@@ -47,6 +47,7 @@ package bkl
 //@     invariant (= (anyBoolKey rest k v) (anyBoolKey (ls l) k v))
 //
 //@ func popListMapBoolValue(l, k, v) (found, res, err)
+//@   propagates all   [C08]
 //@   uses appNil, snocApp, noMarkerNoExtra
 //@   ensures (= found (and (anyBoolKey (ls l) k v) (not (isErr err))))
 //@   ensures (= (isErr err) (markerExtra (ls l) k v))
@@ -91,12 +92,14 @@ package bkl
 // ------------------------------------------------------------------------------------------------- merge.go
 
 //@ func merge(dst, src) (res, err)
+//@   propagates all   [C08]
 //@   consumes dst, src
 //@   ensures (= (isErr err) (mergeErr dst src))                                    [C01] [C06]
 //@   ensures (=> (not (isErr err)) (= res (mergeF dst src)))                       [C01] [C06]
 //@   decreases (+ (rank dst) (rank src)) 3
 //
 //@ func mergeMap(dst, src) (res, err)
+//@   propagates all   [C08]
 //@   consumes dst, src
 //@   requires ((_ is VMap) dst)
 //@   ensures (= (isErr err) (mergeErr dst src))                                    [C01]
@@ -104,6 +107,7 @@ package bkl
 //@   decreases (+ (rank dst) (rank src)) 2
 //
 //@ func mergeMapMap(dst, src) (res, err)
+//@   propagates all   [C08]
 //@   consumes dst, src
 //@   requires ((_ is VMap) dst) ((_ is VMap) src)
 //@   ensures (= (isErr err) (mergeErr dst src))                                    [C01]
@@ -117,12 +121,14 @@ package bkl
 //@     invariant (forall ((j String)) (=> (not (select visited j)) (= (select (mc dst) j) (select (mc dst@pre) j))))
 //
 //@ func mergeList(dst, src) (res, err)
+//@   propagates all   [C08]
 //@   consumes dst, src
 //@   ensures (= (isErr err) (mergeErr dst src))                                    [C01]
 //@   ensures (=> (not (isErr err)) (= res (mergeF dst src)))                       [C01]
 //@   decreases (+ (rank dst) (rank src)) 2
 //
 //@ func mergeListList(dst, src) (res, err)
+//@   propagates all   [C08]
 //@   consumes dst, src
 //@   uses noMarkerNoExtra, noStrNoRemove
 //@   ensures (= (isErr err) (llErr (ls dst) (ls src)))                             [C01] [C07] [C17]
@@ -134,6 +140,7 @@ package bkl
 //@     invariant (= (foldErr (ls dst) rest) (foldErr (ls dst@loop) (ls src)))
 //
 //@ func mergeListDelete(obj, del) (res, err)
+//@   propagates all   [C08]
 //@   consumes obj
 //@   uses appNil, snocApp
 //@   ensures (= (isErr err) (not (anyMatchL (ls obj) del)))                        [C01]
@@ -145,6 +152,7 @@ package bkl
 //@     invariant (= (or deleted (anyMatchL rest del)) (anyMatchL (ls l) del))
 //
 //@ func mergeListMatch(obj, m, v) (res, err)
+//@   propagates all   [C08]
 //@   consumes obj, v
 //@   uses appNil, snocApp
 //@   requires ((_ is VMap) v)
@@ -164,12 +172,14 @@ package bkl
 // ------------------------------------------------------------------------------------------------- validate.go
 
 //@ func validate(obj) (err)
+//@   propagates all   [C08]
 //@   ensures (=> (escV obj) (not (isErr err)))                                             [C06]
 //@   ensures (= (isErr err) (not (noMarker obj)))                                  [C07] [C17]
 //@   ensures (=> (isErr err) (or (= err ErrRequiredField) (= err ErrInvalidDirective)))
 //@   decreases (rank obj) 1
 //
 //@ func validateMap(obj) (err)
+//@   propagates all   [C08]
 //@   ensures (=> (escV obj) (not (isErr err)))                                             [C06]
 //@   requires ((_ is VMap) obj)
 //@   ensures (= (isErr err) (not (noMarker obj)))                                  [C07]
@@ -179,6 +189,7 @@ package bkl
 //@     invariant (forall ((j String)) (=> (select visited j) (and (not (marker j)) (noMarker (select (mc obj) j)))))
 //
 //@ func validateList(obj) (err)
+//@   propagates all   [C08]
 //@   ensures (=> (escV obj) (not (isErr err)))                                             [C06]
 //@   ensures (= (isErr err) (not (noMarker obj)))                                  [C07]
 //@   ensures (=> (isErr err) (or (= err ErrRequiredField) (= err ErrInvalidDirective)))
@@ -188,6 +199,7 @@ package bkl
 //@     invariant (=> (escL (ls obj)) (escL rest))   [C06]
 //
 //@ func validateString(obj) (err)
+//@   propagates all   [C08]
 //@   ensures (= (isErr err) (marker obj))                                          [C07] [C17]
 //@   ensures (=> (= obj "$required") (= err ErrRequiredField))                     [C07] [C17]
 //@   ensures (=> (isErr err) (or (= err ErrRequiredField) (= err ErrInvalidDirective)))
@@ -195,6 +207,7 @@ package bkl
 // ------------------------------------------------------------------------------------------------- util.go (iteration helpers)
 
 //@ func filterMap(m, filter) (res, err)
+//@   propagates all   [C08]
 //@   loop 2
 //@     invariant ((_ is VMap) ret)
 //@     invariant (forall ((j String)) (= (select (mc ret) j) (ite (select visited j) (select (mapOf m2) j) (select (mc ret@loop) j))))
@@ -202,6 +215,7 @@ package bkl
 // ------------------------------------------------------------------------------------------------- output.go
 
 //@ func findOutputs(obj) (res, outs, err)
+//@   propagates all   [C08]
 //@   ensures (= (isErr err) (outBad obj true))
 //@   ensures (=> (not (isErr err)) (= res (stripF obj)))                           [C11] [C06]
 //@   ensures (=> (not (isErr err)) (= outs (VList (selF obj))))                    [C11] [C06]
@@ -209,6 +223,7 @@ package bkl
 //@   decreases (rank obj) 1
 //
 //@ func findOutputsMap(obj) (res, outs, err)
+//@   propagates all   [C08]
 //@   uses appNil, appAssoc, escNames
 //@   requires ((_ is VMap) obj)
 //@   ensures (= (isErr err) (outBad obj true))
@@ -227,6 +242,7 @@ package bkl
 //@     invariant (=> (escV obj@pre) (and (= outs (VList LNil)) (forall ((j String)) (=> (select visited j) (= (select (mc ret) j) (select (mc obj) j))))))   [C06]
 //
 //@ func findOutputsList(obj) (res, outs, err)
+//@   propagates all   [C08]
 //@   uses escNoBoolKey
 //@   ensures (=> (escV obj) (and (not (isErr err)) (= res obj) (= outs (VList LNil))))       [C06]
 //@   uses appNil, snocApp, appAssoc, dropMarkersRank
@@ -242,12 +258,14 @@ package bkl
 //@     invariant (=> (escL (ls obj)) (and (= outs (VList LNil)) (= (app (ls ret) rest) (ls obj)) (escL rest)))   [C06]
 //
 //@ func filterOutput(obj) (res, err)
+//@   propagates all   [C08]
 //@   ensures (= (isErr err) (outBad obj false))
 //@   ensures (=> (not (isErr err)) (= res (hideF obj)))                            [C11] [C06]
 //@   ensures (=> (escV obj) (and (not (isErr err)) (= res (dropF obj))))                      [C06]
 //@   decreases (rank obj) 1
 //
 //@ func filterOutputMap(obj) (res, err)
+//@   propagates all   [C08]
 //@   uses escNames
 //@   requires ((_ is VMap) obj)
 //@   ensures (= (isErr err) (outBad obj false))
@@ -267,6 +285,7 @@ package bkl
 //@                  (ite (= (dropF (select (mc m) j)) VNil) VAbsent (dropF (select (mc m) j))))))))
 //
 //@ func filterOutputList(obj) (res, err)
+//@   propagates all   [C08]
 //@   uses escNoBoolKey
 //@   ensures (=> (escV obj) (and (not (isErr err)) (= res (dropF obj))))                      [C06]
 //@   uses appNil, snocApp, noMarkerNoExtra
@@ -344,6 +363,7 @@ package bkl
 //@     assert (and (= doc@arg doc) (= ec@arg ec) (= data@arg (Document.Data doc)))                           [C12]
 //
 //@ func repeatDocMap(doc, ec, data) (docs, ecs, err)
+//@   propagates all   [C08]
 //@   ensures (=> (not (isErr err)) (= (rllen docs) (rllen ecs)))
 //@   ensures (=> (= (select (mapOf data) "$repeat") VAbsent)                                               [C12] [C06]
 //@              (and (not (isErr err)) (= docs (RCons doc RNil)) (= ecs (RCons ec RNil)) (= (heap Document.Data) (old (heap Document.Data)))))
@@ -352,6 +372,7 @@ package bkl
 //@              (repInt (heap EvalContext.Vars) (heap Document.Data) docs ecs (old (EvalContext.Vars ec)) (VMap (store (mapOf data) "$repeat" VAbsent)) "$repeat" allocTop)))
 //
 //@ func repeatDocList(doc, ec, data) (docs, ecs, err)
+//@   propagates all   [C08]
 //@   ensures (=> (not (isErr err)) (= (rllen docs) (rllen ecs)))
 //@   ensures (=> (plmvE (ls data) "$repeat" VNil) (isErr err))                                            [C12]
 //@   ensures (=> (and (not (plmvE (ls data) "$repeat" VNil)) (= (plmvV (ls data) "$repeat" VNil) VNil))   [C12] [C06]
@@ -360,6 +381,7 @@ package bkl
 //@     assert (and (= v@arg (plmvV (ls data) "$repeat" VNil)) (= (Document.Data doc) (VList (plmvR (ls data) "$repeat"))))   [C12]
 //
 //@ func repeatDocGen(doc, ec, v) (docs, ecs, err)
+//@   propagates all   [C08]
 //@   ensures (=> (not (isErr err)) (= (rllen docs) (rllen ecs)))
 //@   ensures (=> (and (not ((_ is VInt) v)) (not ((_ is VMap) v))) (= err ErrInvalidRepeat))                 [C12]
 //@   ensures (=> ((_ is VInt) v) (and (not (isErr err))                                                    [C12]
@@ -367,6 +389,7 @@ package bkl
 //@              (repInt (heap EvalContext.Vars) (heap Document.Data) docs ecs (old (EvalContext.Vars ec)) (old (Document.Data doc)) "$repeat" allocTop)))
 //
 //@ func repeatDocGenFromInt(doc, ec, name, count) (docs, ecs, err)
+//@   propagates all   [C08]
 //@   property C09
 //@   uses rappLen, rlnthSnoc
 //@   preserves-existing
@@ -400,6 +423,7 @@ package bkl
 // ------------------------------------------------------------------------------------------------- yaml.go (shape contracts)
 
 //@ func yamlMerge(dst, src, node) (err)
+//@   propagates all   [C08]
 //@   uses canonNth
 //@   mutates dst
 //@   requires ((_ is VMap) dst)
@@ -424,11 +448,13 @@ package bkl
 // measure: (1002 - depth, rank of the function inside one depth level); process1 increments depth and refuses depth > 1000
 
 //@ func process1(obj, mergeFrom, mergeFromDocs, depth) (res, err)
+//@   propagates all   [C08]
 //@   ensures (=> (quiet obj depth) (and (not (isErr err)) (= res (dropF obj))))          [C06]
 //@   inplace obj
 //@   property C10
 //@   decreases (- 1002 depth) 0
 //@ func process1Map(obj, mergeFrom, mergeFromDocs, depth) (res, err)
+//@   propagates all   [C08]
 //@   uses escNames
 //@   ensures (=> (quiet obj (- depth 1)) (not (isErr err)))                                [C06]
 //@   ensures (=> (quiet obj (- depth 1)) (and ((_ is VMap) res) (forall ((j String)) (= (select (mc res) j)   [C06]
@@ -447,6 +473,7 @@ package bkl
 //@   at call process1MapReplace#1
 //@     assert (and (= (select (mc obj@pre) "$merge") VAbsent) (= v (select (mc obj@pre) "$replace")))        [C10]
 //@ func process1MapMerge(obj, mergeFrom, mergeFromDocs, v, depth) (res, err)
+//@   propagates all   [C08]
 //@   inplace obj
 //@   property C10
 //@   requires ((_ is VMap) obj)
@@ -456,11 +483,13 @@ package bkl
 //@     assert (=> ((_ is VStr) v) (strPathOK (heap Document.Data) (Document.Data mergeFrom) mergeFromDocs (sv v) in false))    [C10]
 //@     assert (=> ((_ is VList) v) (listPathOK (heap Document.Data) (Document.Data mergeFrom) mergeFromDocs (ls v) in false))  [C10]
 //@ func process1MapReplace(obj, mergeFrom, mergeFromDocs, v, depth) (res, err)
+//@   propagates all   [C08]
 //@   decreases (- 1002 depth) 1
 //@   at call process1#1
 //@     assert (=> ((_ is VStr) v) (strPathOK (heap Document.Data) (Document.Data mergeFrom) mergeFromDocs (sv v) next false))    [C10]
 //@     assert (=> ((_ is VList) v) (listPathOK (heap Document.Data) (Document.Data mergeFrom) mergeFromDocs (ls v) next false))  [C10]
 //@ func process1List(obj, mergeFrom, mergeFromDocs, depth) (res, err)
+//@   propagates all   [C08]
 //@   uses appNil, snocApp, escNoKey
 //@   ensures (=> (quiet obj (- depth 1)) (and (not (isErr err)) (= res (dropF obj))))    [C06]
 //@   call filterList#1
@@ -483,15 +512,19 @@ package bkl
 //@   property C10
 //@   decreases (- 1002 depth) 5
 //@ func process1ListReplace(obj, mergeFrom, mergeFromDocs, m, depth) (res, err)
+//@   propagates all   [C08]
 //@   decreases (- 1002 depth) 1
 //@ func process1String(obj, mergeFrom, mergeFromDocs, depth) (res, err)
+//@   propagates all   [C08]
 //@   ensures (=> (escS obj) (and (not (isErr err)) (= res (VStr obj))))                    [C06]
 //@   decreases (- 1002 depth) 5
 //@ func process1StringMerge(obj, mergeFrom, mergeFromDocs, depth) (res, err)
+//@   propagates all   [C08]
 //@   decreases (- 1002 depth) 1
 //@   at call process1#1
 //@     assert (strPathOK (heap Document.Data) (Document.Data mergeFrom) mergeFromDocs (trimPrefix obj "$merge:") in false)      [C10]
 //@ func process1StringReplace(obj, mergeFrom, mergeFromDocs, depth) (res, err)
+//@   propagates all   [C08]
 //@   decreases (- 1002 depth) 1
 //@   at call process1#1
 //@     assert (strPathOK (heap Document.Data) (Document.Data mergeFrom) mergeFromDocs (trimPrefix obj "$replace:") in false)    [C10]
@@ -499,9 +532,11 @@ package bkl
 // ------------------------------------------------------------------------------------------------- process2.go (termination: depth guard)
 
 //@ func process2(obj, mergeFrom, mergeFromDocs, ec, depth) (res, err)
+//@   propagates all   [C08]
 //@   ensures (=> (quiet obj depth) (and (not (isErr err)) (= res (dropF obj))))          [C06]
 //@   decreases (- 1002 depth) 0
 //@ func process2Map(obj, mergeFrom, mergeFromDocs, ec, depth) (res, err)
+//@   propagates all   [C08]
 //@   uses escNames
 //@   requires ((_ is VMap) obj)
 //@   ensures (=> (quiet obj (- depth 1)) (not (isErr err)))                                [C06]
@@ -523,6 +558,7 @@ package bkl
 //@   at call process2MapValue#1
 //@     assert (and (not (= v@arg VAbsent)) (= (mlen (mapOf obj@arg)) 0))                                     [C14]
 //@ func process2MapValue(obj, mergeFrom, mergeFromDocs, ec, v, depth) (res, err)
+//@   propagates all   [C08]
 //@   decreases (- 1002 depth) 1
 //@ func process2Encode(obj, mergeFrom, mergeFromDocs, ec, v, depth) (res, err)
 //@   decreases (- 1002 depth) 1
@@ -532,12 +568,15 @@ package bkl
 //@   at call process2EncodeAny#1
 //@     assert (noMarker obj2)                                                                             [C07] [C14]
 //@ func process2Decode(obj, mergeFrom, mergeFromDocs, ec, v, depth) (res, err)
+//@   propagates all   [C08]
 //@   decreases (- 1002 depth) 5
 //@   ensures (=> (not ((_ is VStr) v)) (= err ErrInvalidType))                                             [C14]
 //@ func process2DecodeString(obj, mergeFrom, mergeFromDocs, ec, v, depth) (res, err)
+//@   propagates all   [C08]
 //@   decreases (- 1002 depth) 4
 //@   ensures (=> (not ((_ is VMap) obj)) (= err ErrInvalidType))                                           [C14]
 //@ func process2DecodeStringMap(obj, mergeFrom, mergeFromDocs, ec, v, depth) (res, err)
+//@   propagates all   [C08]
 //@   decreases (- 1002 depth) 3
 //@   property C04
 //@   at call process2#1
@@ -550,6 +589,7 @@ package bkl
 //@   ensures (=> (and ((_ is VStr) (select (mc obj) "$value")) (not (= (fmtByName v) 0))                   [C14]
 //@                    (not (= (llen (unmarshalV (fmtByName v) (sv (select (mc obj) "$value")))) 1))) (isErr err))
 //@ func process2List(obj, mergeFrom, mergeFromDocs, ec, depth) (res, err)
+//@   propagates all   [C08]
 //@   uses appNil, snocApp, escNoKey
 //@   ensures (=> (quiet obj (- depth 1)) (and (not (isErr err)) (= res (dropF obj))))    [C06]
 //@   call filterList#1
@@ -560,6 +600,7 @@ package bkl
 //@     assert (and (= v@arg (plmvV (ls obj@pre) "$encode" VNil)) (not (= v@arg VNil))                       [C14]
 //@                 (= obj@arg (VList (plmvR (ls obj@pre) "$encode"))))
 //@ func process2RepeatObjMap(v, mergeFrom, mergeFromDocs, ec, k, r, depth) (res, err)
+//@   propagates all   [C08]
 //@   decreases (- 1002 depth) 2
 //@   ensures (=> (not ((_ is VInt) r)) (isErr err))                                                       [C12]
 //@   at call process2#1
@@ -567,6 +608,7 @@ package bkl
 //@   at call process2#2
 //@     assert (= (EvalContext.Vars ec) (VMap (store (mapOf (old (EvalContext.Vars ec@pre))) "$repeat" (VInt i))))   [C12]
 //@ func process2RepeatObjList(v, mergeFrom, mergeFromDocs, ec, r, depth) (res, err)
+//@   propagates all   [C08]
 //@   decreases (- 1002 depth) 2
 //@   ensures (=> (not ((_ is VInt) r)) (isErr err))                                                       [C12]
 //@   at call process2#1
@@ -575,6 +617,7 @@ package bkl
 // ------------------------------------------------------------------------------------------------- get.go (termination)
 
 //@ func getPath(obj, parts) (res, err)
+//@   propagates all   [C08]
 //@   borrowed
 //@   ensures (= (isErr err) (lookErr obj (sitems parts)))                                                             [C10]
 //@   ensures (=> (isErr err) (= err ErrRefNotFound))                                                         [C10]
@@ -582,6 +625,7 @@ package bkl
 //@   decreases (sllen (sitems parts))
 
 //@ func getCross(docs, conf) (res, err)
+//@   propagates all   [C08]
 //@   borrowed
 //@   uses countMatchNonNeg
 //@   requires ((_ is VMap) conf)
@@ -603,6 +647,7 @@ package bkl
 // borrowed (results alias stored documents), fresh (results share nothing), modifies (struct fields written).
 
 //@ func get(doc, docs, m) (res, err)
+//@   propagates all   [C08]
 //@   borrowed
 //@   ensures (=> ((_ is VStr) m) (strPathOK (heap Document.Data) (Document.Data doc) docs (sv m) res (isErr err)))          [C10]
 //@   ensures (=> ((_ is VList) m) (listPathOK (heap Document.Data) (Document.Data doc) docs (ls m) res (isErr err)))        [C10]
@@ -613,14 +658,17 @@ package bkl
 //@              (= res (Document.Data (firstMatch (heap Document.Data) docs (select (mc m) "$match")))))
 //@   decreases (rank m) 1
 //@ func getPathFromString(obj, docs, path) (res, err)
+//@   propagates all   [C08]
 //@   borrowed
 //@   ensures (strPathOK (heap Document.Data) obj docs path res (isErr err))                                  [C10]
 //@ func getPathFromList(obj, docs, path) (res, err)
+//@   propagates all   [C08]
 //@   borrowed
 //@   uses countMatchNonNeg
 //@   ensures (listPathOK (heap Document.Data) obj docs (ls path) res (isErr err))                           [C10]
 
 //@ func getCrossDoc(docs, pat) (res, err)
+//@   propagates all   [C08]
 //@   borrowed
 //@   uses countMatchNonNeg
 //@   ensures (=> (= (countMatch (heap Document.Data) docs pat) 0) (= err ErrNoMatchFound))                   [C10]
@@ -633,6 +681,7 @@ package bkl
 //@     invariant (=> (= ret 0) (= (firstMatch (heap Document.Data) rest pat) (firstMatch (heap Document.Data) docs pat)))
 
 //@ func process1ListMerge(obj, mergeFrom, mergeFromDocs, m, depth) (res, err)
+//@   propagates all   [C08]
 //@   property C10
 //@   consumes obj
 //@   ensures (=> (not (isErr err)) (exists ((x Val)) (and (= res (mergeF obj x))                             [C10]
@@ -789,6 +838,7 @@ package bkl
 // ------------------------------------------------------------------------------------------------- termination: interpolation, $parent chains
 
 //@ func process2String(obj, mergeFrom, mergeFromDocs, ec, depth) (res, err)
+//@   propagates all   [C08]
 //@   ensures (=> (escS obj) (and (not (isErr err)) (= res (VStr obj))))                    [C06] [C13]
 //@   decreases (- 1002 depth) 1
 //@   ensures (=> (and (not (and (str.prefixof "$""" obj) (str.suffixof """" obj))) (or (str.prefixof "$env:" obj) (= obj "$repeat")))      [C13] [C12]
@@ -800,6 +850,7 @@ package bkl
 //@   ensures (= (isErr err) (p2sE (heap Document.Data) (Document.Data mergeFrom) mergeFromDocs (mapOf (EvalContext.Vars ec)) obj depth))          [C13]
 //@   ensures (=> (not (isErr err)) (= res (p2sF (heap Document.Data) (Document.Data mergeFrom) mergeFromDocs (mapOf (EvalContext.Vars ec)) obj depth)))   [C13]
 //@ func process2StringInterp(obj, mergeFrom, mergeFromDocs, ec, depth) (res, err)
+//@   propagates all   [C08]
 //@   decreases (- 1002 depth) 0
 //@   uses sappNil, ssnocApp
 //@   ensures (= (isErr err) (interpE (heap Document.Data) (Document.Data mergeFrom) mergeFromDocs (mapOf (EvalContext.Vars ec)) obj depth))       [C13]
@@ -868,6 +919,7 @@ package bkl
 
 // termination of the $encode dispatch: "flags" expands to two transforms that are not "flags"
 //@ func process2EncodeAny(obj, mergeFrom, mergeFromDocs, v, depth) (res, err)
+//@   propagates all   [C08]
 //@   uses flagsApp
 //@   decreases (flagsIn v) (rank v) 1
 //@   ensures (= (isErr err) (encAnyE obj v))                                                              [C14]
@@ -876,6 +928,7 @@ package bkl
 //@     invariant (= (encFoldE obj rest) (encFoldE obj@pre (ls v2)))
 //@     invariant (=> (not (encFoldE obj@pre (ls v2))) (= (encFoldF obj rest) (encFoldF obj@pre (ls v2))))
 //@ func process2EncodeString(obj, mergeFrom, mergeFromDocs, v, depth) (res, err)
+//@   propagates all   [C08]
 //@   decreases (flagsIn (VStr v)) 0 0
 //@   uses appNil, snocApp, appAssoc, prefixLsnoc, sappNil, ssnocApp
 //@   ensures (= (isErr err) (encStrE obj v))                                                              [C14]
@@ -888,6 +941,7 @@ package bkl
 //@     invariant (= (app (ls ret) (prefixL prefix rest)) (prefixL prefix (sitems strs)))
 
 //@ func popListMapValue(l, k) (val, rest, err)
+//@   propagates all   [C08]
 //@   uses appNil, snocApp
 //@   ensures (=> (not (anyKeyL (ls l) k)) (and (not (isErr err)) (= val VNil) (= rest l)))              [C06]
 //@   ensures (= (isErr err) (plmvE (ls l) k VNil))                                                       [C12] [C14] [C10]
@@ -913,6 +967,7 @@ package bkl
 //@   ensures (and (= (Document.ID res) id) (= (Document.Data res) data) (= (Document.Parents res) RNil))
 //
 //@ func Document.Clone(d, suffix) (res, err)
+//@   propagates all   [C08]
 //@   uses rappNil, rsnocApp
 //@   preserves-existing
 //@   fresh
@@ -938,6 +993,7 @@ package bkl
 //@   ensures (= res (matchS (Document.Data doc) pat))                                                        [C10] [C02]
 //
 //@ func toStringList(l) (res, err)
+//@   propagates all   [C08]
 //@   uses sappNil, ssnocApp
 //@   ensures (= (isErr err) (not (allStr (ls l))))
 //@   ensures (=> (not (isErr err)) (= (sitems res) (toSL (ls l))))
@@ -949,10 +1005,12 @@ package bkl
 // The only places where the library opens a root handle or reads file content:
 
 //@ func New() (res, err)
+//@   propagates all   [C08]
 //@   property C18
 //@   ensures (=> (not (isErr err)) (and (not (= res 0)) (>= res allocTop) (= (Parser.docs res) RNil)))      [C02]
 //@   effects open-root:os.OpenRoot, env
 //@ func Parser.SetRoot(p, path) (err)
+//@   propagates all   [C08]
 //@   property C18
 //@   effects open-root:os.Root.OpenRoot, probe
 //@   modifies Parser.root, Parser.rootPath
@@ -1015,6 +1073,7 @@ package bkl
 //@     invariant (= (rapp ret (filterMatch (heap Document.Data) rest pat)) (rapp ret@loop (filterMatch (heap Document.Data) ds pat)))
 
 //@ func yamlTranslateNode(node, depth) (res, err)
+//@   propagates all   [C08]
 //@   uses canonApp
 //@   ensures (=> (not (isErr err)) (canon res))                                                              [C04]
 //@   decreases (- 1002 depth)
@@ -1028,6 +1087,7 @@ package bkl
 // ------------------------------------------------------------------------------------------------- normalize.go, process2.go (canonical numbers, C04)
 
 //@ func normalize(obj) (res, err)
+//@   propagates all   [C08]
 //@   decreases (rank obj) 3
 //@   ensures (=> ((_ is VNum) obj) (or (isErr err) ((_ is VInt) res) ((_ is VFlt) res)))                     [C04]
 //@   ensures (=> ((_ is VI64) obj) (and (not (isErr err)) (= res (VInt (lv obj)))))                          [C04]
@@ -1035,6 +1095,7 @@ package bkl
 //@   ensures (=> (canon obj) (and (not (isErr err)) (= res obj)))                                            [C04]
 //
 //@ func normalizeMap(obj) (res, err)
+//@   propagates all   [C08]
 //@   decreases (rank obj) 1
 //@   requires ((_ is VMap) obj)
 //@   ensures (=> (and (not (isErr err)) (decShape obj)) (canon res))                                         [C04]
@@ -1045,6 +1106,7 @@ package bkl
 //@     invariant (=> (canon m) (forall ((j String)) (= (select (mc ret) j) (ite (select visited j) (select (mc m) j) VAbsent))))
 //
 //@ func normalizeList(obj) (res, err)
+//@   propagates all   [C08]
 //@   decreases (rank obj) 1
 //@   uses canonApp, appNil, snocApp
 //@   ensures (=> (and (not (isErr err)) (decShape obj)) (canon res))                                         [C04]
@@ -1055,9 +1117,13 @@ package bkl
 //@     invariant (=> (canonL (ls l)) (and (= (app (ls ret) rest) (ls l)) (canonL rest)))
 //
 //@ func normalizeListMap(obj) (res, err)
+//@   propagates all   [C08]
 //
 //@ func normalizeNumber(obj) (res, err)
+//@   propagates all   [C08]
 //@   ensures (=> (not (isErr err)) (or ((_ is VInt) res) ((_ is VFlt) res)))                                 [C04]
+//@   ensures (=> (not (isErr (numInt64E obj))) (and (not (isErr err)) (= res (VInt (numInt64 obj)))))        [C04] [C05]
+//@   ensures (=> (isErr (numInt64E obj)) (and (= err (numFloatE obj)) (=> (not (isErr err)) (= res (VFlt (numFloat obj))))))   [C04] [C05]
 
 // ------------------------------------------------------------------------------------------------- evalcontext.go, process2.go, get.go ($env / variables, C13)
 
@@ -1068,11 +1134,13 @@ package bkl
 //@     invariant (= (envFold (mc vars) rest) (envFold emptyM osEnviron))
 //
 //@ func EvalContext.GetVar(ec, name) (res, err)
+//@   propagates all   [C08]
 //@   ensures (= (isErr err) (= (select (mapOf (EvalContext.Vars ec)) name) VAbsent))                         [C13]
 //@   ensures (=> (isErr err) (= err ErrVariableNotFound))                                                    [C13]
 //@   ensures (=> (not (isErr err)) (= res (select (mapOf (EvalContext.Vars ec)) name)))                      [C13] [C12]
 //
 //@ func getWithVar(doc, docs, ec, m) (res, err)
+//@   propagates EvalContext.GetVar#1   [C08] [C13]   -- a failing path look-up is NOT a failure: the variable table is tried next
 //@   borrowed
 //@   ensures (=> ((_ is VStr) m)                                                                             [C13]
 //@              (and (= (isErr err) (gwvE (heap Document.Data) (Document.Data doc) docs (mapOf (EvalContext.Vars ec)) (sv m)))
@@ -1081,6 +1149,7 @@ package bkl
 // ------------------------------------------------------------------------------------------------- process2.go ($encode helpers, C14)
 
 //@ func toStringListPermissive(v) (res, err)
+//@   propagates all   [C08]
 //@   uses sappNil, ssnocApp
 //@   ensures (= (isErr err) (not ((_ is VList) v)))                                                          [C14]
 //@   ensures (=> (isErr err) (= err ErrInvalidType))
@@ -1092,6 +1161,7 @@ package bkl
 //@   ensures (= (VStr res) (tolistVal k delim v))                                                            [C14]
 //
 //@ func process2ToListMap(obj, delim) (res, err)
+//@   propagates all   [C08]
 //@   uses appNil, snocApp, appAssoc
 //@   ensures (= (isErr err) (not ((_ is VMap) obj)))                                                         [C14]
 //@   ensures (=> (isErr err) (= err ErrInvalidType))
@@ -1104,6 +1174,7 @@ package bkl
 //@     invariant (= (app (ls ret) (tolistVals k delim rest)) (app (ls ret@loop) (tolistVals k delim (ls v2))))
 //
 //@ func process2ToListList(obj, delim) (res, err)
+//@   propagates all   [C08]
 //@   uses appNil, appAssoc
 //@   ensures (= (isErr err) (not (allMaps (ls obj))))                                                        [C14]
 //@   ensures (=> (not (isErr err)) (= res (VList (tolistL (ls obj) delim))))                                 [C14]
@@ -1113,6 +1184,7 @@ package bkl
 //@     invariant (= (app (ls ret) (tolistL rest delim)) (tolistL (ls obj) delim))
 //
 //@ func process2ValuesMap(obj) (res, err)
+//@   propagates all   [C08]
 //@   uses appNil, snocApp
 //@   ensures (not (isErr err))
 //@   ensures (= res (VList (valuesK (mapOf obj) (sortedKeys (mapOf obj)))))                                  [C14]
@@ -1121,6 +1193,7 @@ package bkl
 //@     invariant (= (app (ls vals) (valuesK (mapOf obj) rest)) (valuesK (mapOf obj) (sortedKeys (mapOf obj))))
 
 //@ func GetFormat(name) (res, err)
+//@   propagates all   [C08]
 //@   ensures (= (isErr err) (= (fmtByName name) 0))
 //@   ensures (=> (isErr err) (= err ErrUnknownFormat))
 //@   ensures (=> (not (isErr err)) (= res (fmtByName name)))
@@ -1152,6 +1225,7 @@ package bkl
 //@                   (and (not (isErr err)) (= real (findFileF (trimSuffix path (str.++ "." (extOf path))))) (= format (extOf path)))))
 //
 //@ func file.parentsFromFilename(f) (res, err)
+//@   propagates all   [C08]
 //@   property C03
 //@   ensures (=> (isStdinF (file.path f)) (and (not (isErr err)) (= res (Slice SNil))))                                                            [C03]
 //@   ensures (=> (and (not (isStdinF (file.path f))) (< (sllen (strSplit (pathBase (file.path f)) ".")) 2)) (= err ErrInvalidFilename))     [C03]
@@ -1163,6 +1237,7 @@ package bkl
 //@   ensures (and (= (isErr err) (fnE (file.path f))) (=> (not (isErr err)) (= res (fnS (file.path f)))))                                   [C03] [follows]
 //
 //@ func globFiles(path) (res, err)
+//@   propagates all   [C08]
 //@   property C03
 //@   uses allDotsApp, sappNil, ssnocApp
 //@   ensures (=> (not (isErr err)) (allDots (sitems res) (strCount (str.++ path ".*") ".")))                                                        [C03]
@@ -1185,6 +1260,7 @@ package bkl
 //@     invariant (= (sapp (sitems ret) (absList (pathDir (file.path f)) rest)) (absList (pathDir (file.path f)) (sitems paths)))
 //
 //@ func file.parentsFromSymlink(f) (res, err)
+//@   propagates all   [C08]
 //@   property C03
 //@   modifies file.path[f]
 //@   ensures (=> (isStdinF (old (file.path f))) (and (not (isErr err)) (= res SliceNil) (= (file.path f) (old (file.path f)))))             [C03]
@@ -1201,6 +1277,7 @@ package bkl
 //
 
 //@ func file.parentsFromDirective(f) (res, err)
+//@   propagates all   [C08]
 //@   property C03
 //@   uses sappNil, sappAssoc, ssnocApp, rdistinctApp, rmemApp
 //@   requires (rdistinct (file.docs f))
@@ -1232,6 +1309,7 @@ package bkl
 // ------------------------------------------------------------------------------------------------- toml.go, yaml.go, json.go (stream framing, C05)
 
 //@ func tomlMarshalStream(vs) (res, err)
+//@   propagates all   [C08]
 //@   property C05
 //@   ensures (= (isErr err) (seqEncErr codecTOML (ls vs) 0))                                                 [C05]
 //@   ensures (=> (not (isErr err)) (= res (tomlFrame codecTOML (ls vs) 0)))                                  [C05]
@@ -1242,6 +1320,7 @@ package bkl
 //@     invariant (= (seqEncErr codecTOML rest idx) (seqEncErr codecTOML (ls vs) 0))
 //
 //@ func tomlUnmarshalStream(in) (res, err)
+//@   propagates all   [C08]
 //@   property C05, C04
 //@   uses appNil, snocApp
 //@   ensures (= (isErr err) (tomlDecE (reSplit (rePat tomlRE) in (- 1))))                                    [C05]
@@ -1252,6 +1331,7 @@ package bkl
 //@     invariant (= (app (ls ret) (tomlDecF rest)) (tomlDecF (reSplit (rePat tomlRE) in (- 1))))
 //
 //@ func yamlUnmarshalStream(in) (res, err)
+//@   propagates all   [C08]
 //@   property C05, C04
 //@   uses appLen
 //@   ensures (=> (not (isErr err)) (= (llen (ls res)) (sllen (reSplit (rePat yamlRE) in (- 1)))))           [C05]
@@ -1260,6 +1340,7 @@ package bkl
 //@     invariant (= (+ (llen (ls ret)) (sllen rest)) (sllen (reSplit (rePat yamlRE) in (- 1))))
 //
 //@ func jsonUnmarshalStream(in) (res, err)
+//@   propagates all   [C08]
 //@   property C05, C04
 //@   uses appNil, snocApp
 //@   ensures (= (isErr err) (not (= (decE (cfg_UseNumber codecJSONdec) in (decCount (cfg_UseNumber codecJSONdec) in)) ioEOF)))        [C05] [C04]
@@ -1282,6 +1363,7 @@ package bkl
 //@   accepts "---"
 //
 //@ func jsonMarshalStream(vs) (res, err)
+//@   propagates all   [C08]
 //@   property C05
 //@   ensures (exists ((c Int)) (and (= (isErr err) (seqEncErr c (ls vs) 0)) (=> (not (isErr err)) (= res (jsonFrame c (ls vs) 0)))))   [C05]
 //@   loop 1
@@ -1290,6 +1372,7 @@ package bkl
 //@     invariant (= (seqEncErr (codecOf enc) rest idx) (seqEncErr (codecOf enc) (ls vs) 0))
 //
 //@ func jsonMarshalStreamPretty(vs) (res, err)
+//@   propagates all   [C08]
 //@   property C05
 //@   ensures (exists ((c Int)) (and (= (isErr err) (seqEncErr c (ls vs) 0)) (=> (not (isErr err)) (= res (jsonFrame c (ls vs) 0)))))   [C05]
 //@   loop 1
@@ -1298,6 +1381,7 @@ package bkl
 //@     invariant (= (seqEncErr (codecOf enc) rest idx) (seqEncErr (codecOf enc) (ls vs) 0))
 //
 //@ func yamlMarshalStream(vs) (res, err)
+//@   propagates all   [C08]
 //@   property C05
 //@   ensures (exists ((c Int)) (and (= (isErr err) (yamlEncErr c (ls vs) 0)) (=> (not (isErr err)) (= res (yamlFrame c (ls vs) 0 0)))))   [C05]
 //@   loop 1
